@@ -85,7 +85,7 @@ Ser(v, level) ==
 Canon(v) == Ser(v, 0)
 
 (* ----------------------------- bounded domain -------------------------- *)
-Alphabet == <<34, 92, 47, 0, 10, 9, 127, 97, 233, 8232, 65535, 128512, 55296, 57343>>
+Alphabet == <<34, 92, 47, 0, 10, 9, 127, 97, 101, 233, 769, 8491, 8232, 65535, 128512, 55296, 57343>>   \* incl. e + U+0301 (NFD of U+00E9) and U+212B (a singleton)
 CPs == {Alphabet[i] : i \in DOMAIN Alphabet}
 IsHigh(cp) == cp >= 55296 /\ cp <= 56319
 IsLow(cp) == cp >= 56320 /\ cp <= 57343
